@@ -751,3 +751,115 @@ Proof.
     by (destruct (Z.min rstop (start + ms) >? max_offset c t) eqn:E1; lia).
   rewrite E. eexists _, _, _. reflexivity.
 Qed.
+
+(* ================= D. frames: highest_offset is the largest end of any frame ever cut ================= *)
+(* extra sender invariant over the legitimate histories of C10 ([reach]): everything written at or above
+   highest_offset is still pending (was never sent) *)
+Definition above_pending (st : send) : Prop :=
+  forall o, s_highest st <= o < s_stop st -> mem o (s_pending st).
+
+Lemma above_pending_step st g op : reach st g -> legit st g op -> above_pending st ->
+  above_pending (snd (send_step st op)).
+Proof.
+  intros R L H. pose proof (reach_inv _ _ R) as V. pose proof (v_start _ _ V) as Hst. unfold above_pending in *.
+  destruct op as [d f|ms mo| |k a b f|k|c]; cbn [send_step].
+  - (* write *)
+    destruct L as (Lf & Lr). unfold write. rewrite Lf, Lr. pose proof (Zlen_nonneg d).
+    destruct (negb (Zlen d =? 0)) eqn:Ed; destruct f; cbn [snd]; intros o Ho; cbn [s_highest s_stop s_pending] in *;
+      try (apply H; exact Ho).
+    all: assert (Hlo : s_start st - 1 < s_stop st) by lia; assert (Hlt : s_stop st < s_stop st + Zlen d) by lia;
+         destruct (add_spec (s_pending st) (s_start st - 1) (s_stop st) (s_stop st + Zlen d) (v_pwf _ _ V) Hlo Hlt) as (_ & M);
+         apply M; destruct (Z_lt_dec o (s_stop st)); [right; apply H; lia|left; lia].
+  - (* get_frame *)
+    cbn [legit] in L. unfold get_frame. rewrite L.
+    destruct (s_pending st) as [|[start rstop] rest] eqn:EP.
+    + destruct (s_pending_eof st); cbn [snd]; intros o Ho; cbn [s_highest s_stop s_pending set_empty] in *; rewrite ?EP; try rewrite EP in H; exact (H o Ho).
+    + cbv zeta.
+      set (stop := match mo with Some m => if Z.min rstop (start + ms) >? m then m else Z.min rstop (start + ms) | None => Z.min rstop (start + ms) end).
+      rewrite <- EP in H.
+      destruct (stop <=? start) eqn:Ele; cbn [snd]; [exact H|].
+      assert (Hlt : start < stop) by lia.
+      destruct (subtract_spec (s_pending st) (s_start st - 1) start stop (v_pwf _ _ V) Hlt) as (_ & M).
+      intros o Ho. cbn [s_highest s_stop s_pending] in *. rewrite <- EP. apply M.
+      destruct (stop >? s_highest st) eqn:E2; (split; [apply H; lia|lia]).
+  - exact H.
+  - (* delivery outcome *)
+    cbn [legit] in L. destruct (outstanding_facts st g a b f V L) as (Hab & Hge & _ & _).
+    unfold on_data_delivery.
+    destruct (f && negb match s_fin st with Some f0 => b =? f0 | None => false end); [exact H|].
+    destruct (s_reset st); [exact H|]. destruct k.
+    + destruct (b >? a); [|exact H].
+      destruct (add a b (s_acked st)) as [|[fs fe] rest]; [exact H|]. destruct (fs =? s_start st); exact H.
+    + assert (Hp : forall o, mem o (s_pending st) -> mem o (if b >? a then add a b (s_pending st) else s_pending st)).
+      { destruct (b >? a) eqn:E; [|auto]. assert (Hlt : a < b) by lia. assert (Hlo : s_start st - 1 < a) by (specialize (Hge Hlt); lia).
+        destruct (add_spec _ _ _ _ (v_pwf _ _ V) Hlo Hlt) as (_ & M). intros o Ho. apply M. right; exact Ho. }
+      destruct (b >? a), f; cbn [snd]; intros o Ho; cbn [s_highest s_stop s_pending] in *; first [apply Hp; apply H; exact Ho|apply H; exact Ho].
+  - destruct k; exact H.
+  - unfold reset. destruct (s_reset st); exact H.
+Qed.
+
+Lemma reach_above_pending st g : reach st g -> above_pending st.
+Proof.
+  induction 1; [intros o Ho; cbn in Ho; lia|]. eapply above_pending_step; eassumption.
+Qed.
+
+(* a frame cut by get_frame ends at the new highest_offset or below it; highest_offset is afterwards exactly the
+   maximum of its old value and the end of that frame: it grows by exactly the newly covered bytes *)
+Lemma get_frame_highest_exact st g ms mo off data fin st' :
+  reach st g -> s_reset st = None -> get_frame st ms mo = (SFrame off data fin, st') ->
+  s_highest st' = Z.max (s_highest st) (off + Zlen data).
+Proof.
+  intros R Lr H. pose proof (reach_inv _ _ R) as V. pose proof (reach_above_pending _ _ R) as HA.
+  pose proof (v_start _ _ V) as Hst. unfold get_frame in H. rewrite Lr in H.
+  destruct (s_pending st) as [|[start rstop] rest] eqn:EP.
+  - destruct (s_pending_eof st) eqn:EE; [|discriminate].
+    destruct (s_fin st) as [f0|] eqn:EF; [|destruct (v_fin_none _ _ V EF) as (X & _); congruence].
+    destruct (v_fin_some _ _ V f0 EF) as (Hf0 & _). inversion H; subst. cbn [s_highest]. change (Zlen (@nil Z)) with 0.
+    assert (s_stop st <= s_highest st).
+    { destruct (Z_le_dec (s_stop st) (s_highest st)); [assumption|exfalso].
+      pose proof (HA (s_highest st) ltac:(lia)) as Hm. rewrite EP in Hm. exact Hm. }
+    lia.
+  - pose proof (v_pwf _ _ V) as W. rewrite EP in W. cbn [wf_from] in W. destruct W as (W1 & W2 & W3).
+    assert (Hrs : rstop <= s_stop st).
+    { pose proof (v_pmax _ _ V (rstop - 1)) as P. rewrite EP in P. cbn [mem] in P.
+      assert (Hq : start <= rstop - 1 < rstop) by lia. specialize (P (or_introl Hq)). lia. }
+    cbv zeta in H.
+    set (stop := match mo with Some m => if Z.min rstop (start + ms) >? m then m else Z.min rstop (start + ms) | None => Z.min rstop (start + ms) end) in H.
+    destruct (stop <=? start) eqn:Ele; [discriminate|].
+    assert (Hstop : start < stop <= rstop) by (unfold stop in *; destruct mo as [m|]; [destruct (Z.min rstop (start + ms) >? m) eqn:E2|]; lia).
+    assert (Hq1 : s_start st <= start) by lia. assert (Hq2 : start <= stop) by lia. assert (Hq3 : stop <= s_stop st) by lia.
+    destruct (buf_slice st g start stop V Hq1 Hq2 Hq3) as (Hdata & Hlen).
+    rewrite Hdata in H. inversion H; subst. cbn [s_highest]. rewrite Hlen.
+    destruct (stop >? s_highest st) eqn:E2; lia.
+Qed.
+
+(* every STREAM frame cut by the stream loop ends within the stream's limit; it costs exactly the bytes it
+   carries above the old highest_offset -- nothing if it only re-sends lost bytes -- and the connection
+   stays within its limit.  [reach (t_send t) g]: the stream's sender has a legitimate history in the sense
+   of C10 (outcomes only for frames that were emitted and had none yet). *)
+Lemma frames_within_limit_l c gm sid ms mo off data fin c' t g :
+  freach c gm -> find_strm sid (c_streams c) = Some t -> reach (t_send t) g ->
+  fstep c (OGet sid ms) = (FGet mo (SFrame off data fin), c') ->
+  off + Zlen data <= t_msdr t /\ t_msdr t <= granted c gm sid /\
+  c_used c' = c_used c + Z.max 0 (off + Zlen data - s_highest (t_send t)) /\
+  c_used c' <= c_max_data c' /\
+  (off + Zlen data <= s_highest (t_send t) -> c_used c' = c_used c).
+Proof.
+  intros R Hf RS H.
+  assert (R' : freach c' gm).
+  { change gm with (gstep gm (OGet sid ms)). replace c' with (snd (fstep c (OGet sid ms))) by (rewrite H; reflexivity).
+    apply freach_step; [exact R|exact Logic.I]. }
+  destruct (connection_within_limit_l _ _ R') as (_ & Hu').
+  destruct (stream_within_limit_l c gm t R (find_in _ _ _ Hf)) as (A & B). rewrite (find_id _ _ _ Hf) in B.
+  cbn [fstep] in H. rewrite Hf in H.
+  destruct (s_reset_pending (t_send t) || t_blocked t || s_empty (t_send t)) eqn:Eg; [discriminate|].
+  assert (He : s_empty (t_send t) = false) by (destruct (s_empty (t_send t)); [rewrite orb_true_r in Eg; discriminate|reflexivity]).
+  assert (Hr : s_reset (t_send t) = None).
+  { destruct (s_reset (t_send t)) eqn:Er; [|reflexivity]. pose proof (v_reset_empty _ _ (reach_inv _ _ RS)) as X.
+    rewrite Er in X. rewrite X in He; [discriminate|discriminate]. }
+  destruct (get_frame (t_send t) ms (Some (max_offset c t))) as [o s'] eqn:Ew. inversion H; subst o c' mo. clear H.
+  pose proof (get_frame_highest_exact _ _ _ _ _ _ _ _ RS Hr Ew) as Hx.
+  pose proof (get_highest (t_send t) ms (max_offset c t)) as Hh. rewrite Ew in Hh. cbn [snd] in Hh.
+  unfold max_offset in Hh. cbn [c_used c_max_data] in *.
+  repeat split; try lia; try exact B.
+Qed.
